@@ -104,6 +104,17 @@ func runC14(t *simrt.Tape, o Opts) Outcome {
 			}
 			actors = append(actors, a)
 		}
+		// the state the race starts from: which system key (if any) the scenario revoked, and the first
+		// creation stamp of the race
+		var revokedSK int64
+		if sc == scSKRevoked {
+			for c := range w.Store.Rows[w.SKID()] {
+				if row, _ := w.Store.Rows.Get(w.SKID(), c); row != nil && row.Revoked && c > revokedSK {
+					revokedSK = c
+				}
+			}
+		}
+		raceStart := unixAt(w, s.Elapsed()).Unix()
 		foreignRace := t.Choose(4, "foreign-race") == 1
 		nenc := 1 + t.Choose(scale(o, 3, 5), "nenc")
 		var tasks []*simrt.Task
@@ -168,6 +179,16 @@ func runC14(t *simrt.Tape, o Opts) Outcome {
 				if skr, _ := snap.Get(ik.ParentKeyMeta.KeyID, ik.ParentKeyMeta.Created); skr == nil {
 					w.Violate("sk-not-persisted", "sk-not-persisted", "IK %s@%d names SK @%d which is not in the metastore", rec.IKID, rec.IKCreated, ik.ParentKeyMeta.Created)
 					continue
+				}
+				// every racer found the system key revoked (two intervals ago, and a later stamp can be
+				// created): whoever wins which insert, no intermediate key made during the race hangs
+				// off that system key
+				if revokedSK != 0 && len(w.ClockSkews) == 0 && rec.IKCreated >= raceStart-int64(pol.Precision/time.Second) {
+					count(st.Oracle, "no-new-ik-under-the-revoked-sk")
+					if ik.ParentKeyMeta.Created == revokedSK && ik.Created > revokedSK {
+						w.Violate("ik-created-under-revoked-sk", "ik-created-under-revoked-sk/racing", "process %d encrypted under IK %s@%d, created during the race under system key @%d, which every racer had found revoked", a.p.ID, rec.IKID, rec.IKCreated, revokedSK)
+						continue
+					}
 				}
 				got, err := refimpl.Decrypt(snap, w.KMS, rec.JSON)
 				if err != nil || !bytes.Equal(got, rec.Payload) {
